@@ -16,7 +16,8 @@ from traits.api import HasTraits, Supports, AdaptsTo, Instance, TraitError
 ID = "C17"
 LEVEL = "exploration"
 RULE = ("Hypothesis cases: 2-6 classes (bases, ABC flags, register pairs), 0-2 constructed paths of 1-4 offers plus 0-4 extra "
-        "offers with 6 kinds of conditional factories, source/target, optional default, 4 access modes; non-trivial = >=2 "
+        "offers with 6 kinds of conditional factories, source/target, optional default, 6 access modes, specificity twins, a "
+        "short chain entering through a far base class, late ABC registrations, re-assignment after a new offer; non-trivial = >=2 "
         "candidate chains, a chain of length >=2, a cycle among the offers or a conditional factory on a candidate; distinct by digest")
 ASSUMPTIONS = ["factories are deterministic functions of the chain they wrap",
                "a watchdog expiry on these tiny inputs counts as a violation of 'returns or raises'"]
